@@ -5,6 +5,8 @@ import time
 
 import z3
 
+from .budget import set_budget
+
 from .values import Unsupported, to_z3
 
 FEAS_TIMEOUT_MS = 5000
@@ -52,7 +54,7 @@ class PathCtx:
         self.taken: list[bool] = []
         self.alternatives: list[list[bool]] = []
         self.solver = z3.Solver()
-        self.solver.set("timeout", session.timeout_ms)
+        set_budget(self.solver, session.timeout_ms)
         self.obligations: list[Obligation] = []
         self.func_label = func_label
         self.speculative = 0
@@ -94,11 +96,11 @@ class PathCtx:
         try:
             for e in extra:
                 self.solver.add(e)
-            self.solver.set("timeout", FEAS_TIMEOUT_MS)
+            set_budget(self.solver, FEAS_TIMEOUT_MS)
             r = self.solver.check()
         finally:
             self.solver.pop()
-            self.solver.set("timeout", self.session.timeout_ms)
+            set_budget(self.solver, self.session.timeout_ms)
         return r
 
     def feasible(self, f) -> bool:
